@@ -25,6 +25,8 @@ def gen_metrics(rnd, n_einsums=None, force=None):
         return gen_lf_shared(rnd)
     if n_einsums in (None, 1) and force is None and rnd.random() < 0.06:
         return gen_lf_affine(rnd)
+    if n_einsums in (None, 1) and force is None and rnd.random() < 0.18:
+        return gen_part_metrics(rnd)
     pool = ["M", "N", "K", "J"]
     nr = rnd.randint(2, 3)
     perm = rnd.sample(pool, nr)           # global rank precedence (concordant everywhere)
@@ -183,6 +185,11 @@ def gen_metrics(rnd, n_einsums=None, force=None):
         b_lines += ["  %s:" % out, "  - config: %s" % cname, "    prefix: tmp/%s" % out]
         tens = [t for t in ei["inputs"] + [out] if decl[t]]
         bound = [t for t in tens if rnd.random() < 0.7]
+        bare = i > 0 and rnd.random() < 0.12
+        if bare:
+            # nothing but the configuration is bound: no timed component at all
+            ei["bare"] = True
+            continue
 
         def tb(kind, eager=None):
             """kind: dram | cache | buffet; eager: {tensor: (rank, evict)}"""
@@ -288,7 +295,7 @@ def gen_metrics(rnd, n_einsums=None, force=None):
         tags.append("m-input-read-by-two-einsums")
     if any(ei.get("time_shuffled") for ei in einfo):
         tags.append("m-time-list-not-in-loop-order")
-    if any(not any(k for k in ei["bound"]) for ei in einfo):
+    if any(ei.get("bare") for ei in einfo):
         tags.append("m-einsum-with-no-timed-component")
     if any("same_rank_intersector" in ei for ei in einfo):
         tags.append("m-same-rank-intersector-across-einsums")
@@ -330,7 +337,7 @@ def gen_merger(rnd):
     if rnd.random() < 0.6:
         br = rnd.sample([X, K, Y], rnd.randint(1, 2))
         br = [r for r in [X, K, Y] if r in br]
-        if rnd.random() < 0.3:
+        if rnd.random() < 0.5:
             br = [X, K, Y]
         decl["B"] = br
         facs.append(_acc("B", br))
@@ -357,7 +364,7 @@ def gen_merger(rnd):
     b = ["bindings:", "  Z:", "  - config: accel", "    prefix: tmp/Z", "  - component: Merge0",
          "    bindings:", "    - tensor: A", "      init-ranks: [%s]" % ", ".join(init),
          "      final-ranks: [%s]" % ", ".join(final)]
-    two = "B" in decl and decl["B"] == decl["A"] and rnd.random() < 0.5
+    two = "B" in decl and decl["B"] == decl["A"]
     if two:
         # a second tensor on the same merger (the compiler refuses this today)
         b += ["    - tensor: B", "      init-ranks: [%s]" % ", ".join(init),
@@ -462,4 +469,119 @@ def gen_lf_affine(rnd):
                 extra="\n".join(arch + b + fmt) + "\n",
                 tags=["metrics", "m-affine", "m-" + kind, "m-einsums1", "m-configs1", "S1"])
     spec._extents = ext
+    return spec
+
+
+def gen_part_metrics(rnd):
+    """Partitioned Einsum in metrics mode (extensor / demo / C06-style):
+    Z[m, n] = A[k, m] * B[k, n] with one or two ranks split by shape or by
+    occupancy, formats and bindings written on the partitioned rank names."""
+    decl = {"A": ["K", "M"], "B": ["K", "N"], "Z": ["M", "N"]}
+    if rnd.random() < 0.3:
+        decl = {"A": ["K", "M"], "B": ["K"], "Z": ["M"]}
+    ranks = []
+    for rs in decl.values():
+        for r in rs:
+            if r not in ranks:
+                ranks.append(r)
+    holders = {r: [t for t in ("A", "B") if r in decl[t]] for r in ranks}
+    chosen = rnd.sample(ranks, rnd.choice([1, 1, 2]))
+    parts, groups, syms = {}, [], {}
+    tags = ["metrics", "m-partitioned", "m-einsums1", "m-configs1"]
+    for r in ranks:
+        if r in chosen:
+            n = rnd.choice([1, 2])
+            kind = rnd.choice(["shape", "occ", "occ"])
+            st = []
+            for i in range(n):
+                if kind == "shape":
+                    if rnd.random() < 0.5:
+                        nm = "%s%d" % (r, n - i - 1)
+                        syms[nm] = rnd.randint(2, 4)
+                        st.append("uniform_shape(%s)" % nm)
+                    else:
+                        st.append("uniform_shape(%d)" % rnd.randint(2, 4))
+                else:
+                    st.append("uniform_occupancy(%s.%d)" % (rnd.choice(holders[r]), rnd.randint(2, 5)))
+            parts[r] = st
+            groups.append([r + str(j) for j in range(n, -1, -1)])
+            tags.append("m-part-" + kind)
+            if kind == "occ" and n == 2:
+                tags.append("m-part-occ-two-level")
+        else:
+            groups.append([r])
+    from .mapping import interleave
+    lo = interleave(rnd, groups, True)
+    level = {r: [x for g in groups for x in g if g[0].startswith(r) and (x == r or x[len(r):].isdigit())]
+             for r in ranks}
+
+    def final(t):
+        fr = [x for r in decl[t] for x in level[r]]
+        return [x for x in lo if x in fr]
+    facs = [_acc("A", decl["A"]), _acc("B", decl["B"])]
+    rnd.shuffle(facs)
+    e = Einsum(_acc("Z", decl["Z"]), [Term("times", facs)])
+    fmt = ["format:"]
+    fmt_bits = {}
+    tens = [t for t in ("A", "B", "Z") if rnd.random() < 0.75] or ["A"]
+    for t in tens:
+        fr = final(t)
+        fmt += ["  %s:" % t, "    default:", "      rank-order: [%s]" % ", ".join(fr)]
+        for i, x in enumerate(fr):
+            cb = rnd.choice([0, 32]) if i < len(fr) - 1 else 32
+            pb = rnd.choice([0, 32]) if i < len(fr) - 1 else 64
+            fmt += ["      %s:" % x, "        format: %s" % rnd.choice(["C", "U"])]
+            if cb:
+                fmt.append("        cbits: %d" % cb)
+            if pb:
+                fmt.append("        pbits: %d" % pb)
+            fmt_bits[(t, x)] = (cb, pb)
+    bufcls = rnd.choice(["Buffet", "Buffet", "Cache"])
+    npe = rnd.choice([1, 4])
+    arch = ["architecture:", "  accel:", "  - name: System", "    attributes:",
+            "      clock_frequency: 1000", "    local:", "    - name: Mem", "      class: DRAM",
+            "      attributes:", "        bandwidth: 512", "    subtree:",
+            "    - name: %s" % _level_name("PE", npe), "      local:", "      - name: Buf",
+            "        class: %s" % bufcls, "        attributes:", "          width: 64",
+            "          depth: 256", "      - name: Mul0", "        class: compute",
+            "        attributes:", "          type: mul"]
+    isect = rnd.random() < 0.4 and len(holders.get("K", [])) == 2
+    itype = rnd.choice(["two-finger", "skip-ahead", "leader-follower"])
+    if isect:
+        arch += ["      - name: Isect", "        class: Intersector", "        attributes:",
+                 "          type: %s" % itype]
+    b = ["bindings:", "  Z:", "  - config: accel", "    prefix: tmp/Z"]
+
+    def tb(kind):
+        s = []
+        for t in tens:
+            if rnd.random() < 0.2:
+                continue
+            for x in final(t):
+                cb, pb = fmt_bits[(t, x)]
+                for ty, bits in (("coord", cb), ("payload", pb)):
+                    if not bits and rnd.random() < 0.7:
+                        continue
+                    s += ["    - tensor: %s" % t, "      rank: %s" % x, "      type: %s" % ty,
+                          "      format: default"]
+                    if kind == "buffet":
+                        pos = lo.index(x)
+                        s.append("      evict-on: %s" % rnd.choice(["root"] + lo[:pos]))
+        return s
+    mem = tb("dram")
+    if mem:
+        b += ["  - component: Mem", "    bindings:"] + mem
+    buf = tb("buffet" if bufcls == "Buffet" else "cache")
+    if buf:
+        b += ["  - component: Buf", "    bindings:"] + buf
+    b += ["  - component: Mul0", "    bindings:", "    - op: mul"]
+    if isect:
+        kl = rnd.choice(level["K"])
+        b += ["  - component: Isect", "    bindings:", "    - rank: %s" % kl]
+        if itype == "leader-follower":
+            b.append("      leader: %s" % facs[0].name)
+        tags.append("m-" + itype)
+    spec = Spec(decl, [e], partitioning={"Z": parts}, loop_order={"Z": lo},
+                spacetime={"Z": {"space": [], "time": list(lo)}},
+                extra="\n".join(arch + b + fmt) + "\n", syms=syms, tags=sorted(set(tags)))
     return spec
